@@ -223,8 +223,12 @@ class PolyExec:
             p.env[st.target.id] = cur + rhs if isinstance(st.op, ast.Add) else (cur - rhs if isinstance(st.op, ast.Sub) else cur * rhs)
             return [p]
         if isinstance(st, ast.If):
-            if not (isinstance(st.test, ast.Compare) and len(st.test.ops) == 1 and type(st.test.ops[0]) in OPS):
+            test, body, orelse = st.test, st.body, st.orelse
+            while isinstance(test, ast.UnaryOp) and isinstance(test.op, ast.Not):
+                test, body, orelse = test.operand, orelse, body
+            if not (isinstance(test, ast.Compare) and len(test.ops) == 1 and type(test.ops[0]) in OPS):
                 raise Unknown("condition %s" % astq.canon(st.test))
+            st = ast.If(test=test, body=body, orelse=orelse)
             a = self.atom(self.ev(st.test.left, p.env))
             b = self.atom(self.ev(st.test.comparators[0], p.env))
             op = OPS[type(st.test.ops[0])]
